@@ -276,10 +276,13 @@ class FacebookPhoto(FacebookParsedItem):
     @property
     def url(self):
         if self.group_id:
-            return urljoin(
-                BASE_FACEBOOK_URL,
-                "/photo.php?fbid=%s&set=g.%s" % (self.id, self.group_id),
-            )
+            url = "/photo.php?fbid=%s&set=g.%s" % (self.id, self.group_id)
+
+            # NOTE: a photo can be known with its group and its album at once
+            if self.album_id:
+                url += "&set=a.%s" % self.album_id
+
+            return urljoin(BASE_FACEBOOK_URL, url)
 
         if self.parent_id:
             return urljoin(
@@ -359,13 +362,14 @@ def parse_facebook_url(url, allow_relative_urls=False):
 
             group_id = next((s for s in sets if s.startswith("g.")), None)
 
+            # NOTE: an empty id ("set=g.") is no id
             if group_id:
-                group_id = group_id.split("g.", 1)[1]
+                group_id = group_id.split("g.", 1)[1] or None
 
             album_id = next((s for s in sets if s.startswith("a.")), None)
 
             if album_id:
-                album_id = album_id.split("a.", 1)[1]
+                album_id = album_id.split("a.", 1)[1] or None
 
         return FacebookPhoto(query["fbid"][0], group_id=group_id, album_id=album_id)
 
